@@ -861,6 +861,11 @@ fn cache(sink: &mut Sink, o: &Opts) {
         }
         sink.emit(json!({"t": "samebig", "method_lines": per, "mapping_len": big.len(), "lens": lens, "digests": digests}));
     }
+    if focus == "written" {
+        if let Some(e) = opt_value(o, "--layout-at-scale") {
+            layout_at_scale(sink, e.parse().unwrap());
+        }
+    }
     for (k, src) in srcs.iter().enumerate() {
         match focus.as_str() {
             "written" => {
@@ -1808,6 +1813,79 @@ fn threads_first_use(sink: &mut Sink, rounds: usize, entries: usize) {
                              "alone": alone[round % queries.len()], "shared": answers}));
         }
     }
+}
+
+/// C09 at scale: the written file of a mapping with one class of `entries` entries under one obfuscated name (and a
+/// few small classes), read with a field reader written from the documented layout only (no library code), streamed as
+/// header counts, class table and run-length encoded section keys
+pub fn layout_at_scale(sink: &mut Sink, entries: usize) {
+    let mut src = String::from("a.First -> a:\n    void m() -> b\n    1:2:void n(int) -> a\ncom.example.Wide -> w:\n");
+    for k in 0..entries {
+        let p = (k / 7) % 1500;
+        src.push_str(&format!("    {}:{}:void f{}(p{}):{}:{} -> a\n", 2 * k + 1, 2 * k + 2, p % 50, p, 5 + k % 100, 6 + k % 100));
+    }
+    src.push_str("    void late(p9999) -> a\n    void late2(p0) -> a\n    void zed(p7) -> b\nz.Last -> z:\n    int f -> g\n");
+    let Ok(bytes) = crate::handles::write_cache(src.as_bytes()) else { return };
+    let u32at = |off: usize| -> u32 { if off + 4 <= bytes.len() { u32::from_le_bytes(bytes[off..off + 4].try_into().unwrap()) } else { 0 } };
+    let (nc, nm, np, ns) = (u32at(8) as usize, u32at(12) as usize, u32at(16) as usize, u32at(20) as usize);
+    let al = |x: usize| (x + 7) / 8 * 8;
+    let classes_at = 24;
+    let members_at = al(classes_at + nc * 28);
+    let by_at = al(members_at + nm * 36);
+    let str_at = al(by_at + np * 36);
+    let mut strings_ok = str_at + ns <= bytes.len();
+    // the string at a section offset: LEB128 length, then bytes; None when absent (all-ones) or unreadable
+    let string_at = |off: u32, ok: &mut bool| -> Vec<u8> {
+        if off == u32::MAX {
+            return vec![];
+        }
+        let (mut len, mut shift, mut p) = (0usize, 0u32, str_at + off as usize);
+        loop {
+            if p >= str_at + ns || shift > 28 {
+                *ok = false;
+                return vec![];
+            }
+            let b = bytes[p];
+            len |= ((b & 0x7f) as usize) << shift;
+            shift += 7;
+            p += 1;
+            if b & 0x80 == 0 {
+                break;
+            }
+        }
+        if p + len > str_at + ns {
+            *ok = false;
+            return vec![];
+        }
+        bytes[p..p + len].to_vec()
+    };
+    let mut classes = vec![];
+    for k in 0..nc {
+        let c = classes_at + 28 * k;
+        let (name, moff, mlen, boff, blen) = (u32at(c), u32at(c + 12) as usize, u32at(c + 16) as usize, u32at(c + 20) as usize, u32at(c + 24) as usize);
+        let runs = |base: usize, off: usize, len: usize, with_params: bool, ok: &mut bool| -> Vec<Value> {
+            let mut out: Vec<(Vec<u8>, Vec<u8>, usize)> = vec![];
+            for j in 0..len {
+                let m = base + 36 * (off + j);
+                if m + 36 > bytes.len() {
+                    *ok = false;
+                    break;
+                }
+                let key = (string_at(u32at(m), ok), if with_params { string_at(u32at(m + 32), ok) } else { vec![] });
+                match out.last_mut() {
+                    Some(last) if last.0 == key.0 && last.1 == key.1 => last.2 += 1,
+                    _ => out.push((key.0, key.1, 1)),
+                }
+            }
+            out.into_iter().map(|(n, p, c)| json!({"name": enc::bytes(&n), "params": enc::bytes(&p), "count": c})).collect()
+        };
+        let member_runs = runs(members_at, moff, mlen, false, &mut strings_ok);
+        let byparam_runs = runs(by_at, boff, blen, true, &mut strings_ok);
+        classes.push(json!({"name": enc::bytes(&string_at(name, &mut strings_ok)), "moff": moff, "mlen": mlen, "boff": boff, "blen": blen,
+                            "member_runs": member_runs, "byparam_runs": byparam_runs}));
+    }
+    sink.emit(json!({"t": "biglayout", "entries": entries, "len": bytes.len(), "header": {"nc": nc, "nm": nm, "np": np, "ns": ns},
+                     "classes": classes, "strings_ok": strings_ok}));
 }
 
 /// C02 at scale: one class with more than 65536 entries under one obfuscated name and many parameter strings;
